@@ -153,3 +153,44 @@ func HarnessSilentPeer() {
 	verif.Assert(ret == 1, "pending-call-returns-by-close-at-the-latest")
 	verif.Reach("silent-done")
 }
+
+// HarnessPongsAfterReconnect: after a reconnect, ping/pong activity on the new
+// connection still counts as activity (the read deadline is renewed after a pong).
+func HarnessPongsAfterReconnect() {
+	l := verif.ListenWS()
+	go func() {
+		verif.Daemon()
+		pc := l.Accept()
+		pc.Recv() // first request
+		pc.Abort()
+		for {
+			pc = l.Accept()
+			for {
+				b, ok := pc.Recv()
+				if !ok {
+					break
+				}
+				var r wireReq
+				if json.Unmarshal(b, &r) != nil || r.ID == nil {
+					continue
+				}
+				rb, _ := json.Marshal(map[string]interface{}{"jsonrpc": "2.0", "id": r.ID, "result": r.Params[0]})
+				pc.Send(rb)
+			}
+		}
+	}()
+	var c C
+	closer, err := jsonrpc.NewMergeClient(context.Background(), l.URL(), "NS", []interface{}{&c}, nil,
+		jsonrpc.WithTimeout(time.Second), jsonrpc.WithPingInterval(100*time.Millisecond),
+		jsonrpc.WithReconnectBackoff(time.Millisecond, 5*time.Millisecond))
+	verif.Assert(err == nil, "client-created")
+	c.Echo(context.Background(), 1) // fails: the peer resets after reading it
+	verif.Quiesce()                 // reconnected; ping timers may fire now (budget T)
+	v, e2 := c.Echo(context.Background(), 2)
+	verif.Assert(e2 == nil && v == 2, "call-after-reconnect")
+	verif.Quiesce()
+	verif.Assert(verif.PongsIgnored() == 0, "pong-activity-renews-the-read-deadline-after-reconnect")
+	closer()
+	verif.Quiesce()
+	verif.Reach("pongs-after-reconnect-done")
+}
